@@ -304,7 +304,8 @@ Definition silence (targets : list (N * msg)) (pf : fset) (op : flagop) : list (
 
 Definition any_expunged (res : list (N * msg * bool)) : bool := existsb (fun x => snd x) res.
 
-(* do_store + update_flags *)
+(* do_store + update_flags (both refuse a read-only selection; do_store does so
+   before silence(), which is therefore never observable in that case) *)
 Definition do_store (st : state) (uid : bool) (ss : seqset) (op : flagop) (silent : bool)
            (fl : fset) : state * out :=
   match st_sel st with
